@@ -417,6 +417,8 @@ def contains(it, c, x):
         return z3.Exists([k], z3.And(d.sort.has(d, kv), it.eq(d.sort.get(d, kv), x)))
     if not isinstance(c, V):
         raise OutOfSubset(f"`in` on {c!r}")
+    if isinstance(c.sort, S.TOpt) and isinstance(c.sort.inner, S.TRef):
+        c = it.coerce(c, c.sort.inner)  # narrowing as everywhere else: in specifications, or where the path condition excludes None
     if record_class(it, c) is not None:
         return record_has(it, c, x)
     so = c.sort
@@ -457,6 +459,10 @@ def binop(it, op, a, b, node=None):
         a = V(S.TSet(a[1].sort.key), (a[1].terms[0],))
     if not (isinstance(a, V) and isinstance(b, V)):
         raise OutOfSubset(f"binary op on {a!r}, {b!r}")
+    if isinstance(op, ast.BitOr) and getattr(a, "meta", None) == "emptylit" and isinstance(a.sort, S.TDict) and (
+            isinstance(b.sort, S.TDict) or record_class(it, b) is not None):
+        # {} | d  is a new dict equal to d (containers are values, A-NOALIAS; a record literal on the right is fresh)
+        return b
     # arithmetic on an Optional operand: allowed when the path condition excludes None (a None operand would be a TypeError)
     if isinstance(a.sort, S.TOpt) and a.sort.inner in (TInt, TReal):
         a = it.coerce(a, a.sort.inner)
